@@ -280,14 +280,25 @@ def run(ck):
     # fixed corpus first (polar sites, two-fold pair stabilisers, 2-D polar), then the random pool
     corpus = [(nm,) + gen.named(nm) for nm in ("polar", "hcp-oct-tet", "rect-polar2d", "honeycomb", "hcp")] + \
              [("chiral-" + nm,) + sc.chiral_crystal(nm)[:2] for nm in ("p4", "P4/m", "P-3")]   # rotation axis without mirrors
-    for label, crys, chem in itertools.chain(corpus, gen.pool(rng, ncrys, random_frac=0.55)):
+    # moving species not the first chemistry (flat atom index != index within its sublattice), origin states on
+    corpus += [("TiOH-chem2",) + sc.tioh(), ("polar2w",) + gen.named("polar2w")]
+    corpus = [c + (None,) for c in corpus]
+    # noisy positions analysed with a loosened symmetry threshold: judged with the crystal's own tolerance
+    for nm in (("hcp",) if ck.quick else ("hcp", "polar", "honeycomb")):
+        r = sc.noisy_crystal(nm, rng)
+        if r is not None: corpus.append((r[0], r[1], r[2], gen.shells(r[3], r[2])[0] + 1e-2))
+    for label, crys, chem, fixedcut in itertools.chain(corpus, ((a, b, c, None) for a, b, c in gen.pool(rng, ncrys, random_frac=0.55))):
         try:
-            net = gen.percolating_network(crys, chem, rng, maxjumps=ck.n(30, 60))
+            if fixedcut is not None:
+                net = (fixedcut, crys.sitelist(chem), crys.jumpnetwork(chem, fixedcut))
+            else:
+                net = gen.percolating_network(crys, chem, rng, maxjumps=ck.n(30, 60))
         except Exception:
             skipped["construct-failed"] += 1; continue
         if net is None:
             skipped["nonpercolating"] += 1; continue
         cut, sl, jn = net
+        tolc = max(TOL, crys.threshold) if crys.threshold > 1e-7 else TOL     # the crystal's own tolerance for noisy positions
         try:
             jumps = sc.latt_jumps(crys, chem, jn)
             ops = sc.ops_of(crys, chem)
@@ -333,7 +344,7 @@ def run(ck):
             Phi = phi_matrix(S, V, dim)
             # -- orthonormality
             e = err("orthonormal", np.abs(Phi.T @ Phi - np.eye(V.Nvstars)).max())
-            if e > TOL:
+            if e > tolc:
                 violation("orthonormal", "vector stars not orthonormal: max |Phi^T Phi - 1| = %.3g" % e, info)
             # -- equivariance under every g
             emax = 0.
@@ -374,7 +385,7 @@ def run(ck):
             if V.Nvstars != total or wrong:
                 violation("count" + sfx, "number of vector stars %d differs from the total invariant dimension %d" % (V.Nvstars, total),
                           info, {"per_star(have,expected)": wrong[:6], "stars_with_twofold_stabiliser": sorted(twofold)[:10]})
-            if equiv_err > TOL:
+            if equiv_err > tolc:
                 violation("equivariant" + sfx, "vector stars not invariant under the space group: %.3g" % equiv_err, info)
             else:
                 err("equivariant", equiv_err)
@@ -384,11 +395,11 @@ def run(ck):
                 for j in range(V.Nvstars):
                     if starof[i] == starof[j]:
                         out[:, :, i, j] = sum(np.outer(Phi[x * dim:(x + 1) * dim, i], Phi[x * dim:(x + 1) * dim, j]) for x in stars[starof[i]])
-            if err("outer", np.abs(out - V.outer).max()) > 1e-8:      # zeroclean removes entries below 1e-8
+            if err("outer", np.abs(out - V.outer).max()) > max(1e-8, tolc):      # zeroclean removes entries below 1e-8
                 violation("outer", "outer differs from the sum of outer products by %.3g" % maxerr["outer"], info)
             # -- expansions
             try:
-                bad = expansions(ck, crys, chem, S, V, Phi, sts, pos, jumps, ops, nsites, N, nr, err, zc, fixdim, bool(sfx))
+                bad = expansions(ck, crys, chem, S, V, Phi, sts, pos, jumps, ops, nsites, N, nr, err, zc, fixdim, tolc)
             except Exception as e2:
                 violation("exception", "expansion raised %s: %s" % (type(e2).__name__, e2), info); bad = []
             for key, msg in bad:
@@ -419,7 +430,7 @@ def run(ck):
     crystalStars.zeroclean = orig_zeroclean
 
 
-def expansions(ck, crys, chem, S, V, Phi, sts, pos, jumps, ops, nsites, N, nr, err, zc, fixdim, known_bad_basis):
+def expansions(ck, crys, chem, S, V, Phi, sts, pos, jumps, ops, nsites, N, nr, err, zc, fixdim, tolc):
     """GF / rate / bias / bare expansions contracted with random rates vs Phi^T A Phi, A assembled by brute force"""
     bad = []
     dim = crys.dim
@@ -472,11 +483,11 @@ def expansions(ck, crys, chem, S, V, Phi, sts, pos, jumps, ops, nsites, N, nr, e
             A[x, y] = val[ds]
     want = Phi.T @ blockI(n, dim, A) @ Phi
     e = err("gf", np.abs(np.dot(GFexp, gimpl) - want).max() / max(1., float(np.abs(want).max())))
-    if e > TOL: bad.append(("gf", "GFexpansion . g differs from Phi^T G Phi by %.3g" % e))
+    if e > tolc: bad.append(("gf", "GFexpansion . g differs from Phi^T G Phi by %.3g" % e))
     # invariance of the span (hypothesis of the projection lemma), evaluated
     AF = blockI(n, dim, A) @ Phi
     e = err("gf-invariance", np.abs(AF - Phi @ (Phi.T @ AF)).max())
-    if e > 1e-9: bad.append(("invariance", "span of the vector stars is not invariant under the assembled G: %.3g" % e))
+    if e > max(1e-9, tolc): bad.append(("invariance", "span of the vector stars is not invariant under the assembled G: %.3g" % e))
 
     if N < 2: return bad        # omega networks need a kinetic shell beyond the first
     # ---- jump networks of the implementation as the given input; transitions enumerated by brute force
@@ -545,7 +556,7 @@ def expansions(ck, crys, chem, S, V, Phi, sts, pos, jumps, ops, nsites, N, nr, e
                 # rows/columns of origin-state vector stars are judged separately (stable key for that class of input)
                 mask = np.logical_or.outer(osrows, osrows)
                 eo = err("om2-rate0escape-originstate", diff[mask].max())
-                if eo > TOL:
+                if eo > tolc:
                     bad.append(("om2-rate0escape-originstate", "omega2 rate0escape: entry of the origin states differs from the "
                                 "projection of -sum dimFix(Stab x) rate(x) by %.3g" % eo))
                 bare = Phi.T @ blockI(n, dim, np.diag(E0bare)) @ Phi
@@ -556,7 +567,7 @@ def expansions(ck, crys, chem, S, V, Phi, sts, pos, jumps, ops, nsites, N, nr, e
                 diff = diff[~mask]
                 if diff.size == 0: continue
             e = err("%s-%s" % (name, what), diff.max())
-            if e > TOL:
+            if e > tolc:
                 bad.append(("%s-%s" % (name, what), "%s %s expansion contracted with random rates differs from the projection of the "
                             "directly assembled quantity by %.3g" % (name, what, e)))
     return bad
